@@ -187,13 +187,58 @@ def has_recursive_inline_union(spec):
     return any(reaches(r, k) for k, v in comps.items() for r in inline_union_member_refs(v) if r in comps)
 
 
+def has_allof_cycle(spec):
+    """some component reaches itself through $ref members of allOf (directly or transitively)"""
+    comps = spec.get("components", {}).get("schemas", {})
+    parents = {}
+    for k, v in comps.items():
+        ps = set()
+        if isinstance(v, dict):
+            for m in v.get("allOf", []) or []:
+                if isinstance(m, dict) and isinstance(m.get("$ref"), str):
+                    ps.add(m["$ref"].split("/")[-1])
+        parents[k] = ps
+    for k in comps:
+        seen, todo = set(), list(parents.get(k, ()))
+        while todo:
+            u = todo.pop()
+            if u == k:
+                return True
+            if u in seen:
+                continue
+            seen.add(u)
+            todo.extend(parents.get(u, ()))
+    return False
+
+
+def has_recursive_array_alias(spec):
+    """a component `{type: array, items: $ref X}` that reaches itself through such array components only"""
+    comps = spec.get("components", {}).get("schemas", {})
+    nxt = {}
+    for k, v in comps.items():
+        if isinstance(v, dict) and not v.get("properties") and isinstance(v.get("items"), dict) and isinstance(v["items"].get("$ref"), str):
+            nxt[k] = v["items"]["$ref"].split("/")[-1]
+    for k in nxt:
+        seen, u = set(), nxt[k]
+        while u in nxt and u not in seen:
+            if u == k:
+                return True
+            seen.add(u)
+            u = nxt[u]
+        if u == k:
+            return True
+    return False
+
+
 def classify(tags, mode, rc, out, spec=None):
     """known-finding key for a crash, by the mutator that was applied and the panic message (narrow)"""
     if rc in (-6, 134, -11, 139) or "stack overflow" in out:
-        if "allof-cycle" in tags:
+        if "allof-cycle" in tags or (spec is not None and has_allof_cycle(spec)):
             return "allof-cycle-stack-overflow"
         if "self-ref" in tags:
             return "self-ref-stack-overflow"
+        if spec is not None and has_recursive_array_alias(spec):
+            return "recursive-array-alias-stack-overflow"
         if spec is not None and has_recursive_inline_union(spec):
             return "recursive-union-helpers-stack-overflow"
     if "panicked" in out:
